@@ -350,3 +350,86 @@ package catalog
 //@   requires b != nil && b.mx == 0 && b.rules != nil
 //@   modifies b.mx, b.rules.data
 //@   ensures b.mx == 0 && len(b.rules.data) == old(len(b.rules.data)) + 1
+
+// ---------------------------------------------------------------- catalog setters: duplicates and second singletons are rejected (C11)
+
+//@ func NewTag
+//@   tag C19 C01
+//@   modifies nothing
+//@   ensures fresh(ret) && ret.Name == name && ret.Title == title && ret.Description == nil
+
+//@ func (*Catalog).AddTag
+//@   tag C11 C19 C09 C01
+//@   requires c != nil && RepInvTags(c.Tags) && c.Tags.mx == 0
+//@   modifies c.Tags.mx, c.Tags.data, c.Tags.order, mapof(c.Tags.data)
+//@   ensures [C11] old(has(c.Tags.data, name)) ==> !isnil(ret) && unchanged()
+//@   ensures !old(has(c.Tags.data, name)) ==> isnil(ret) && has(c.Tags.data, name) && c.Tags.data[name].Name == name && seqapp(c.Tags.order, old(c.Tags.order), name)
+//@   ensures [C19] !old(has(c.Tags.data, name)) ==> c.Tags.data[name].Title == (title == "" ? name : title)
+//@   ensures RepInvTags(c.Tags) && c.Tags.mx == 0
+
+//@ func (*Catalog).AddServer
+//@   tag C11 C09 C01
+//@   requires c != nil && RepInvServers(c.Servers) && c.Servers.mx == 0
+//@   modifies c.Servers.mx, c.Servers.data, c.Servers.order, mapof(c.Servers.data)
+//@   ensures [C11] old(has(c.Servers.data, name)) ==> !isnil(ret) && unchanged()
+//@   ensures !old(has(c.Servers.data, name)) ==> isnil(ret) && has(c.Servers.data, name) && seqapp(c.Servers.order, old(c.Servers.order), name)
+//@   ensures RepInvServers(c.Servers) && c.Servers.mx == 0
+
+//@ func (*Catalog).AddJSight
+//@   tag C11 C01
+//@   requires c != nil
+//@   modifies c.JSightVersion
+//@   ensures [C11] old(c.JSightVersion) != "" ==> !isnil(ret) && unchanged()
+//@   ensures old(c.JSightVersion) == "" ==> isnil(ret) && c.JSightVersion == version
+
+//@ func (*Catalog).AddInfo
+//@   tag C11 C01
+//@   requires c != nil
+//@   modifies c.Info
+//@   ensures [C11] old(c.Info) != nil ==> !isnil(ret) && unchanged()
+//@   ensures old(c.Info) == nil ==> isnil(ret) && fresh(c.Info)
+
+//@ func (*Catalog).AddTitle
+//@   tag C11 C01
+//@   requires c != nil && c.Info != nil
+//@   modifies c.Info.Title
+//@   ensures [C11] old(c.Info.Title) != "" ==> !isnil(ret) && unchanged()
+//@   ensures old(c.Info.Title) == "" ==> isnil(ret) && c.Info.Title == name
+
+//@ func (*Catalog).AddVersion
+//@   tag C11 C01
+//@   requires c != nil && c.Info != nil
+//@   modifies c.Info.Version
+//@   ensures [C11] old(c.Info.Version) != "" ==> !isnil(ret) && unchanged()
+//@   ensures old(c.Info.Version) == "" ==> isnil(ret) && c.Info.Version == version
+
+//@ func (*Catalog).AddDescriptionToInfo
+//@   tag C11 C01
+//@   requires c != nil && c.Info != nil
+//@   modifies c.Info.Description
+//@   ensures [C11] old(c.Info.Description) != nil ==> !isnil(ret) && unchanged()
+//@   ensures old(c.Info.Description) == nil ==> isnil(ret) && c.Info.Description != nil
+
+// ---------------------------------------------------------------- interaction keys (C09: one JSON member per interaction, key = id)
+
+//@ pred mtext(m int) = m == 0 ? "GET" : (m == 1 ? "POST" : (m == 2 ? "PUT" : (m == 3 ? "PATCH" : (m == 4 ? "DELETE" : "OPTIONS"))))
+
+// fmt.Sprintf("%s %s") semantics are assumed (trusted): the key text is the concatenation below
+//@ func (HTTPInteractionID).String
+//@   tag C09
+//@   trusted
+//@   pure
+//@   requires 0 <= h.method && h.method <= 5
+//@   ensures ret == "http " + mtext(h.method) + " " + h.path
+//@ func (JsonRpcInteractionId).String
+//@   tag C09
+//@   trusted
+//@   pure
+//@   ensures ret == "json-rpc-2.0 " + j.method + " " + j.path
+
+// distinct HTTP interaction ids have distinct key texts (so RepInv of Interactions gives "no repeated JSON key")
+//@ lemma httpIdInjective : [C09] forall m1 int, m2 int, p1 string, p2 string :: 0 <= m1 && m1 <= 5 && 0 <= m2 && m2 <= 5
+//@      && ("http " + mtext(m1) + " " + p1) == ("http " + mtext(m2) + " " + p2) ==> m1 == m2 && p1 == p2
+// the same for JSON-RPC ids is FALSE (method names and paths may contain spaces): known finding F9
+//@ lemma jsonRpcIdInjective : [C09] forall m1 string, m2 string, p1 string, p2 string :: strprefix(p1, "/") && strprefix(p2, "/")
+//@      && ("json-rpc-2.0 " + m1 + " " + p1) == ("json-rpc-2.0 " + m2 + " " + p2) ==> m1 == m2 && p1 == p2
